@@ -122,11 +122,29 @@ def FsInfoAsFormatted (ft : FatType) (fs : FsState) : Prop :=
   (ft = .fat32 → fs.fsInfo.free = some (fs.totalClusters - 1) ∧ fs.fsInfo.next = some (fs.rootCluster + 1)) ∧
   (ft ≠ .fat32 → fs.fsInfo.free = none ∧ fs.fsInfo.next = none)
 
+/-- the remaining fields of the mounted state and of the device after the mount -/
+structure MountedExtra (boot : FBoot) (fs : FsState) (d2 : Dev) (strict accDate lfnAlloc unicode : Bool) : Prop where
+  firstDataSector : fs.firstDataSector =
+    boot.bpb.reserved + boot.bpb.fats * boot.bpb.sectorsPerFat + boot.bpb.rootDirSectors
+  rootDirSectors : fs.rootDirSectors = boot.bpb.rootDirSectors
+  mirroring : fs.mirroring = true
+  activeFat : fs.activeFat = 0
+  fsInfoSector : fs.fsInfoSector = boot.bpb.fsInfoSector
+  bpbDirty : fs.bpbDirty = false
+  bpbIoErr : fs.bpbIoErr = false
+  statusRaw : fs.statusRaw = 0
+  strict : fs.strict = strict
+  accDate : fs.accDate = accDate
+  lfnAlloc : fs.lfnAlloc = lfnAlloc
+  unicode : fs.unicode = unicode
+  failAt : d2.failAt = none
+  fsInfoDirty : fs.fsInfo.dirty = false
+
 /-- **`format_then_mount`**: on a device that meets `Formattable`, if `format_volume` succeeds then mounting the
     device as the next call sees it succeeds — for every strictness and option setting — and the mounted state has
     exactly the geometry format chose; the volume is clean; on FAT32 the FS-info cache holds `total_clusters - 1` free
     clusters and the hint `root_cluster + 1`; mounting changes neither the image nor the log. -/
-theorem format_then_mount (o : FormatOpts) (d0 d1 : Dev) (hpre : Formattable o d0)
+theorem format_then_mount_full (o : FormatOpts) (d0 d1 : Dev) (hpre : Formattable o d0)
     (hrun : run (formatVolume o) d0 = (.ok (), d1)) (strict accDate lfnAlloc unicode : Bool) :
     ∃ boot ft fs d2, formatChecked o (fmtTotal o d0) = .ok (boot, ft) ∧
       run (mount strict accDate lfnAlloc unicode) (nextOp d1) = (.ok fs, d2) ∧
@@ -135,7 +153,8 @@ theorem format_then_mount (o : FormatOpts) (d0 d1 : Dev) (hpre : Formattable o d
       fs.fats = boot.bpb.fats ∧ fs.spf = boot.bpb.sectorsPerFat ∧ fs.rootEntries = boot.bpb.rootEntries ∧
       boot.bpb.totalClusters = .ok fs.totalClusters ∧ fs.rootCluster = boot.bpb.rootCluster ∧
       fs.totalSectors = fmtTotal o d0 ∧
-      fs.curDirty = false ∧ fs.curIoErr = false ∧ FsInfoAsFormatted ft fs := by
+      fs.curDirty = false ∧ fs.curIoErr = false ∧ FsInfoAsFormatted ft fs ∧
+      MountedExtra boot fs d2 strict accDate lfnAlloc unicode := by
   have hR := hpre.run hrun
   obtain ⟨boot, ft, Lb, Lk, Lz, Lf, Lr, Lt, hf⟩ := hR.facts
   have hc := hf.checked
@@ -201,7 +220,7 @@ theorem format_then_mount (o : FormatOpts) (d0 d1 : Dev) (hpre : Formattable o d
       .ok ⟨(BootSector.deserialize boot.serialize).bpb, (Bpb.deserialize boot.serialize).geoOf, fi⟩ ∧
       (ft = .fat32 → fi.freeClusterCount = some ((Bpb.deserialize boot.serialize).tcNat - 1) ∧
         fi.nextFreeCluster = some 3) ∧
-      (ft ≠ .fat32 → fi.freeClusterCount = none ∧ fi.nextFreeCluster = none) := by
+      (ft ≠ .fat32 → fi.freeClusterCount = none ∧ fi.nextFreeCluster = none) ∧ fi.dirty = false := by
     have hft' : FatType.fromClusters (Bpb.deserialize boot.serialize).tcNat = ft := by
       rw [htcN]; exact hg.ftc.symm
     have hft : (Bpb.deserialize boot.serialize).geoOf.fatType = ft := hft'
@@ -218,7 +237,7 @@ theorem format_then_mount (o : FormatOpts) (d0 d1 : Dev) (hpre : Formattable o d
         unfold C07run.fsInfoOf
         rw [hboot0, hoff]; exact hfi
       refine ⟨{ freeClusterCount := some (tc - 1), nextFreeCluster := some 3, dirty := false }, ?_,
-        fun _ => ⟨by rw [htceq], rfl⟩, fun h => absurd h32 h⟩
+        fun _ => ⟨by rw [htceq], rfl⟩, fun h => absurd h32 h, rfl⟩
       unfold mountGeometry
       rw [hprobe, ebind_ok]
       unfold readFsInfo
@@ -248,13 +267,13 @@ theorem format_then_mount (o : FormatOpts) (d0 d1 : Dev) (hpre : Formattable o d
       rw [if_neg (by omega), if_neg (by omega)]
       rfl
     · refine ⟨{}, C07run.mountGeometry_fat1x hsec hprobe (by rw [hft]; exact h32), fun h => absurd h h32,
-        fun _ => ⟨rfl, rfl⟩⟩
-  obtain ⟨fi, hmgeq, hfi32', hfi1x⟩ := hmg
+        fun _ => ⟨rfl, rfl⟩, rfl⟩
+  obtain ⟨fi, hmgeq, hfi32', hfi1x, hfidirty⟩ := hmg
   rw [hmgeq] at hrunm
   have hfs2 := hfsok _ hmgeq
   -- collect
   have hft : FatType.fromClusters (Bpb.deserialize boot.serialize).tcNat = ft := by rw [htcN]; exact hg.ftc.symm
-  refine ⟨boot, ft, _, d2, hc, hrunm, hfs2, hframe.img, hframe.log, hft, ?_, ?_, ?_, ?_, ?_, ?_, ?_, ?_, ?_, ?_, ?_, ?_⟩
+  refine ⟨boot, ft, _, d2, hc, hrunm, hfs2, hframe.img, hframe.log, hft, ?_, ?_, ?_, ?_, ?_, ?_, ?_, ?_, ?_, ?_, ?_, ?_, ?_⟩
   · show (Bpb.deserialize boot.serialize).bytesPerSector = _; rw [hs.bps]; rfl
   · show (Bpb.deserialize boot.serialize).sectorsPerCluster = _; rw [hs.spc]; rfl
   · show (Bpb.deserialize boot.serialize).reservedSectors = _; rw [hs.rsvd]; rfl
@@ -278,6 +297,39 @@ theorem format_then_mount (o : FormatOpts) (d0 d1 : Dev) (hpre : Formattable o d
       show _ = some (boot.bpb.rootCluster + 1)
       rw [(hg.f32 h32).2.2]
     · intro h32; exact hfi1x h32
+  · have hext : (Bpb.deserialize boot.serialize).extendedFlags = 0 := by
+      rw [hs.extFlags]; show boot.bpb.extFlags = 0; exact hg.extFlags
+    have hmir : (Bpb.deserialize boot.serialize).mirroringEnabled = true := by
+      unfold Bpb.mirroringEnabled; rw [hext]; rfl
+    have hr1 : (Bpb.deserialize boot.serialize).reserved1 = 0 := by
+      rw [hs.reserved1]; exact hres1
+    refine ⟨?_, ?_, hmir, ?_, ?_, ?_, ?_, hr1, rfl, rfl, rfl, rfl, hframe.failAt, ?_⟩
+    · show (Bpb.deserialize boot.serialize).fdsNat = _; rw [hs.fds, view_firstData_eq]
+    · show (Bpb.deserialize boot.serialize).rdsNat = _; rw [hs.rds]; rfl
+    · show (Bpb.deserialize boot.serialize).activeFat = 0
+      unfold Bpb.activeFat; rw [hmir]; rfl
+    · show (Bpb.deserialize boot.serialize).fsInfoSector = _; rw [hs.fsInfo]; rfl
+    · show ((Bpb.deserialize boot.serialize).reserved1 % 2 == 1) = false; rw [hr1]; rfl
+    · show ((Bpb.deserialize boot.serialize).reserved1 / 2 % 2 == 1) = false; rw [hr1]; rfl
+    · show fi.dirty = false
+      by_cases h32 : ft = .fat32
+      · exact hfidirty
+      · exact hfidirty
+
+/-- **`format_then_mount`** (the first statement; `format_then_mount_full` adds `MountedExtra`) -/
+theorem format_then_mount (o : FormatOpts) (d0 d1 : Dev) (hpre : Formattable o d0)
+    (hrun : run (formatVolume o) d0 = (.ok (), d1)) (strict accDate lfnAlloc unicode : Bool) :
+    ∃ boot ft fs d2, formatChecked o (fmtTotal o d0) = .ok (boot, ft) ∧
+      run (mount strict accDate lfnAlloc unicode) (nextOp d1) = (.ok fs, d2) ∧
+      d2.fs = fs ∧ d2.img = d1.img ∧ d2.log = [] ∧
+      fs.fatType = ft ∧ fs.bps = boot.bpb.bps ∧ fs.spc = boot.bpb.spc ∧ fs.reserved = boot.bpb.reserved ∧
+      fs.fats = boot.bpb.fats ∧ fs.spf = boot.bpb.sectorsPerFat ∧ fs.rootEntries = boot.bpb.rootEntries ∧
+      boot.bpb.totalClusters = .ok fs.totalClusters ∧ fs.rootCluster = boot.bpb.rootCluster ∧
+      fs.totalSectors = fmtTotal o d0 ∧
+      fs.curDirty = false ∧ fs.curIoErr = false ∧ FsInfoAsFormatted ft fs := by
+  obtain ⟨boot, ft, fs, d2, h1, h2, h3, h4, h5, h6, h7, h8, h9, h10, h11, h12, h13, h14, h15, h16, h17, h18, _⟩ :=
+    format_then_mount_full o d0 d1 hpre hrun strict accDate lfnAlloc unicode
+  exact ⟨boot, ft, fs, d2, h1, h2, h3, h4, h5, h6, h7, h8, h9, h10, h11, h12, h13, h14, h15, h16, h17, h18⟩
 
 /-! ## non-vacuity -/
 
